@@ -9,10 +9,10 @@ from .c15 import ref_py
 
 ID = 'C16'
 LEVEL = 'model_checking'
-RULE = ('every atom text of length <= 3 [thorough: 4] over the 19 characters {a Z 0 _ space \' " newline # % ( ) , . : é 五 ﬁ(ligature) ％(full-width)} (quoted when '
+RULE = ('every atom text of length <= 3 [thorough: 4] over the 20 characters {a Z 0 _ space \' " LF CR # % ( ) , . : é 五 ﬁ(ligature) ％(full-width)} (quoted when '
         'the lexer requires it, also quoted when it does not), and every term of depth <= 2 over {6 atom texts, 0 7 123, '
         'f/1, g/2, [] [t] [t,u] [t|V] [t,u|V], _, named variables} - each literal compiled as a fact argument, as a head '
-        'argument of a rule, and as a body-goal argument, then (1) read back through a query: structure equals the '
+        'argument of a rule, and as a body-goal argument, each batch also compiled from a file holding the same text (identical code required), then (1) read back through a query: structure equals the '
         'literal\'s term and to_python equals the reference value (name / int / list / (name,[args]) / None); (2) the '
         'same term built with atom/functor/listpair/makelist through the API is used as query argument: exactly one '
         'answer, and the compiled literal read back unifies with it; (3) atoms: yp.atom(n) is yp.atom(n); atoms and whole terms built on two '
@@ -21,7 +21,7 @@ RULE = ('every atom text of length <= 3 [thorough: 4] over the 19 characters {a 
 ASSUMPTIONS = ['the generator starts from a TERM, prints it in the documented syntax (\' written as \\\', no other '
                'backslashes) and knows the value to_python must return (RefLiteral)',
                'to_python of partial lists is unspecified and observed structurally only']
-CHARS = ['a', 'Z', '0', '_', ' ', "'", '"', '\n', '#', '%', '(', ')', ',', '.', ':', 'é', '五', '\ufb01', '\uff05']
+CHARS = ['a', 'Z', '0', '_', ' ', "'", '"', '\n', '\r', '#', '%', '(', ')', ',', '.', ':', 'é', '五', '\ufb01', '\uff05']
 BATCH = 30
 
 
@@ -114,6 +114,22 @@ def to_engine_makelist(yp, t, vm):
     return impl.to_engine(yp, t, vm)
 
 
+class FileDiffers(Exception):
+    pass
+
+
+def compile_from_file(src):
+    import os
+    import tempfile
+    fd, path = tempfile.mkstemp(suffix='.prolog', prefix='verif-c16-')
+    try:
+        with os.fdopen(fd, 'w', encoding='utf8', newline='') as f:
+            f.write(src)
+        return impl.compiler.compile_prolog_from_file(path, impl.Ctx)
+    finally:
+        os.unlink(path)
+
+
 def check_batch(batch):
     """batch: list of (idx, cls, term, text) -> list of (idx, status, sig, detail, outcome)"""
     clauses_text = []
@@ -129,6 +145,11 @@ def check_batch(batch):
     try:
         py = impl.compile_text(src)
         yp = impl.new_engine(py)
+        # the same text read from a FILE denotes the same program (no translation of the
+        # characters inside quoted atoms on the way in)
+        pyf = compile_from_file(src)
+        if pyf != py:
+            raise FileDiffers()
     except Exception as e:  # noqa: BLE001
         if len(batch) > 1:
             # find the culprit(s) individually
@@ -137,6 +158,8 @@ def check_batch(batch):
                 out += check_batch([item])
             return out
         idx, cls, term, text = batch[0]
+        if isinstance(e, FileDiffers):
+            return [(idx, 'violation', 'file-and-string-compile-differently', 'literal %s: compile_prolog_from_file of a file holding %r returns other code than compile_prolog_from_string of the same text' % (pp(term), src[:120]), None)]
         return [(idx, 'violation', 'compile-or-load-raises:' + type(e).__name__, 'literal %s: source %r\nraised %r' % (pp(term), src[:200], e), None)]
     yp2 = impl.YP()
     # an engine that was cleared before the script was loaded (clear() rebuilds the atom table)
